@@ -95,6 +95,14 @@ def parse(pattern):
             m = {"n": 10, "t": 9, "r": 13, "f": 12, "v": 11, "a": 7, "0": 0}
             if e in m:
                 return P("lit", m[e])
+            if e == "p" or e == "P":
+                # \p{L}: letters — exact for ASCII subjects only (checked when matching)
+                j = pattern.index("}", pos)
+                cls = pattern[pos:j + 1]
+                pos = j + 1
+                if cls != "{L}":
+                    raise Unsupported("unicode class \\p%s" % cls)
+                return P("uletter", e == "P")
             if e == "d":
                 return P("set", [(48, 57)], False)
             if e == "s":
@@ -174,6 +182,14 @@ def ends(node, chars, i, cond):
         if i < n:
             c = in_ranges(chars[i], node.a[0])
             _merge(out, i + 1, z_and([cond, z_not(c) if node.a[1] else c]))
+        return out
+    if k == "uletter":
+        if i < n:
+            ch = chars[i]
+            if (ch.concrete and ch.v >= 128) or (not ch.concrete and ch.width != 1):
+                raise Unsupported("\\p{L} on a non-ASCII subject")
+            c = in_ranges(ch, [(65, 90), (97, 122)])
+            _merge(out, i + 1, z_and([cond, z_not(c) if node.a[0] else c]))
         return out
     if k == "bol":
         if i == 0:
@@ -374,7 +390,7 @@ def _walk(node, chars, i, caps, cond, k):
     """generator of (pos, caps, cond) in priority order; k = continuation is applied by the caller"""
     n = len(chars)
     kind = node.kind
-    if kind in ("lit", "any", "set", "bol", "eol"):
+    if kind in ("lit", "any", "set", "bol", "eol", "uletter"):
         for j, c in ends(node, chars, i, cond).items():
             if c is not False:
                 yield j, caps, c
